@@ -6,6 +6,21 @@ ALL = ["C%02d" % i for i in range(1, 21)]
 
 # id -> dict(level_text, level_note, technique, design_ref)
 CLAIMED = {
+ "C16": dict(
+   text="Round trip from_str(to_string(e)) == e and equality of the serialised form with a reference encoder written from the documented field list, exhaustively for every filesystem event kind (41, hand-written spelling table), first-class signal, source and file type, and for generated events (0-8 tags in any order, UTF-8 paths incl. empty/non-ASCII/long, pids over u32, Signal::from(n) over i32, exit codes over the full i64/i32 ranges, metadata maps). Generated malformed tag objects of each known kind (random subsets of type-valid fields of all kinds, nulls, boundary codes) must parse, never be mistaken for another kind, be Unknown exactly when a required field is missing/contradictory, and re-serialise idempotently; structured raw JSON text must re-serialise to an equal event without panicking.",
+   note="Reference encoder and kind table are the harness's transcription of the documented format (--emit-events-to docs, README, pinned snapshots). libFuzzer leg not built; the raw leg is grammar-based proptest.",
+   technique="exhaustive enumeration + proptest round-trip / differential against a reference encoder and decoder-totality oracle",
+   ref="DESIGN.md §3 C16"),
+ "C17": dict(
+   text="Reconstruction oracle on summarise_events_to_env over generated batches (shared-prefix trees with prefix-related names, a path equal to the common directory, duplicates across events, relative/disjoint roots, 0-2 kinds per event, file/dir/unknown): every (path, kind) pair is recoverable by joining COMMON with an entry of (one of) its variable(s), nothing else is listed, entries strictly increase bytewise, COMMON equals the reference longest common directory when every pathed event has a kind; CLI simple format line list equals the reference (events, paths, kinds) and the CLI environment emitter equals the library summary under the documented variable names.",
+   note="Separators ':' and newline excluded from names. Kinds the docs do not place unambiguously accept two variables; simple-format labels accept documented and implemented spellings. End-to-end environment leg (vhelper) is part of C18's real-process check, not this one.",
+   technique="proptest with a reconstruct-by-join (inverse) oracle and a reference implementation of common-directory / line listing",
+   ref="DESIGN.md §3 C17"),
+ "C20": dict(
+   text="Exhaustive over the ProjectType enumeration (is_vcs XOR is_soft, equal to the documented class; variant list cross-checked against the source file) and over every recognised marker alone as right and wrong node type; generated chains of 1-6 nested real directories with right-typed / wrong-typed markers and decoys per level, started from a dir, a file or a non-existent leaf: origins() must equal exactly the ancestors-or-self that hold a right-typed marker (real ancestors above the scratch root judged by the same reference predicate) and types() must equal the image of the markers present.",
+   note="Origin-marker list is transcribed from the implementation (docs do not enumerate it); marker->type and classes from the variant docs. Symlinks are not generated.",
+   technique="exhaustive finite tables + proptest on generated directory trees against a reference predicate",
+   ref="DESIGN.md §3 C20"),
  "C04": dict(
    text="History invariant over the time-stamped call log of simulated children installed through the public spawn hook (production job task, paused tokio clock): at every spawn, every earlier child of the job has had its exit status collected. Bounded-exhaustive over all sequences of the 11 lifecycle controls up to length 3 (quick) / 4 (thorough) x {burst, settled} x 4 child classes, then random sequences (<=14 steps) with gaps, graces and child reaction delays drawn from one value pool so ties at timer deadlines are frequent, spawn/kill/signal failure injection and a generated select! seed.",
    note="One schedule per (sequence, timing, select! seed) on tokio's current-thread scheduler; the simulated child replaces process-wrap's child object (a real /bin/true is still spawned underneath); real cross-thread interleavings are not explored.",
@@ -78,7 +93,7 @@ def main():
     json.dump(m, open("/verif/MANIFEST.json", "w"), indent=1)
     print("claimed:", sorted(CLAIMED.keys()))
 
-HOOK_COMMITS = []
+HOOK_COMMITS = ["8ee7871", "fc3877e"]
 NOT_APPLICABLE = {}
 
 if __name__ == "__main__":
